@@ -15,7 +15,7 @@ from .. import lib
 
 CATS = [('IJ-AVG-$', 0), ('PEDGE-$', 1000)]
 # (a negative scale fills all ten columns of the table's SCALE field: '-2.500E+00')
-TRACERS = {0: [(1, 'NOx', 1e9, 'ppbv'), (2, 'Ox', -2.5, 'negscale')],
+TRACERS = {0: [(1, 'NOx', 1e9, 'ppbv'), (2, 'Ox', -2.5, 'negscale'), (3, 'PAN', 1e12, 'pptv')],
            1000: [(1001, 'PSURF', 1.0, 'hPa'), (1002, 'PEDGE2', 1e9, 'ppbv')]}
 
 
@@ -81,7 +81,7 @@ class Prop(core.Prop):
             yield dict(group, layers='2+3', start=[1, 1, 1], tables='complete', flags=list(flags))
         if (group['nt'], group['ncat'], group['ntr']) == (1, 1, 1):
             for lp in ('1', '2', '3'):
-                for sw in (1, 2):
+                for sw in (1, 2, 3):
                     yield dict(group, layers=lp, start=[1, 1, 1], tables='complete', slotswap=sw)
         for lp in ('1', '2+3'):
             yield dict(group, layers=lp, start=[1, 1, 1], tables='complete', reserved=True)
@@ -180,6 +180,9 @@ class Prop(core.Prop):
         blocks = [[mk(1, 0., 0)], [mk(2, 1., 500)]]
         if case['slotswap'] == 2:
             blocks = [[mk(1, 0., 0), mk(2, 0., 100)], [mk(2, 1., 500), mk(1, 1., 600)]]
+        if case['slotswap'] == 3:
+            # the first slot repeats (so the file maps as two time blocks), the second holds another tracer
+            blocks = [[mk(1, 0., 0), mk(2, 0., 100)], [mk(1, 1., 500), mk(3, 1., 600)]]
         raw = rf.enc_bpch(dict(ftype='CTM bin 02', toptitle='GEOS-CHEM binary punch file v. 2.0', modelname='GEOS5_47L',
                                modelres=(2.5, 2.0), halfpolar=1, center180=1, blocks=blocks))
         self.ncase = getattr(self, 'ncase', 0) + 1
@@ -203,7 +206,7 @@ class Prop(core.Prop):
         held = {}
         for blk in blocks:
             for b in blk:
-                held.setdefault({1: 'IJ-AVG-$_NOx', 2: 'IJ-AVG-$_Ox'}[b['tracer']], []).append(b['data'])
+                held.setdefault({1: 'IJ-AVG-$_NOx', 2: 'IJ-AVG-$_Ox', 3: 'IJ-AVG-$_PAN'}[b['tracer']], []).append(b['data'])
         vs, ntrans = [], 0
         scope = dict(nt=2, ncat=1, ntr=len(blocks[0]), layers=case['layers'], nested=False, tables='complete',
                      subhourly=False, flags='11', revtime=False, reserved=False, slotswap=case['slotswap'])
